@@ -52,8 +52,12 @@ def gen_cases(tier, seed):
         cases.append({"kind": "acct", "seed": seed * 30011 + i, "n": per})
     for backend in ("mem", "sqlite"):
         for logic in ("single", "or"):
-            cases.append({"kind": "conc", "backend": backend, "logic": logic, "strategy": "dfs", "p": 2 if thorough else 1, "seed": seed, "budget": 300 if thorough else 25})
+            cases.append({"kind": "conc", "backend": backend, "logic": logic, "strategy": "dfs", "p": 3 if thorough else 2, "seed": seed, "budget": 600 if thorough else 40})
             cases.append({"kind": "conc", "backend": backend, "logic": logic, "strategy": "pct", "count": 2500 if thorough else 75, "seed": seed * 17 + 1, "budget": 300 if thorough else 25})
+        # the two loops alone (no concurrent reporter): the smaller schedule space lets the bounded-preemption search go one level deeper
+        cases.append({"kind": "conc", "backend": backend, "logic": "single", "strategy": "dfs", "p": 3 if thorough else 2, "seed": seed, "budget": 900 if thorough else 90, "reporter": False, "warm": True})
+        if thorough:
+            cases.append({"kind": "conc", "backend": backend, "logic": "or", "strategy": "dfs", "p": 2, "seed": seed, "budget": 600, "reporter": True, "warm": True})
     for i in range(6 if thorough else 2):
         cases.append({"kind": "shared", "seed": seed * 30011 + 900 + i, "n": 40 if thorough else 8})
     nc = 20000 if thorough else 300
@@ -239,9 +243,17 @@ def run_conc(case, V, hooks, distinct):
             build_config(app2, random.Random(1), force={"n": 1, "kinds": ["event"], "logic": "default" if logic == "single" else "or", "providers": True})
         else:
             app2 = app   # in-memory stores live in the app object: two loop threads of one process
+        ctxs = [runner_ctx("R", "loop-0"), runner_ctx("R", "loop-1")]
+        if case.get("warm", False):
+            # not a fresh store: an earlier occurrence was already served (claims, cleared conditions and caches are populated)
+            app.trigger.emit_event("c13_event", {"token": "ev-warm"})
+            set_thread_ctx(app, ctxs[0])
+            try:
+                app.trigger.trigger_loop_iteration()
+            finally:
+                clear_thread_ctx(app)
         app.trigger.emit_event("c13_event", {"token": "ev-0"})
         flush_history(app)
-        ctxs = [runner_ctx("R", "loop-0"), runner_ctx("R", "loop-1")]
 
         def loop(i):
             a = (app, app2)[i]
@@ -258,7 +270,8 @@ def run_conc(case, V, hooks, distinct):
 
         def reporter():
             app.trigger.emit_event("c13_event", {"token": "ev-late"})
-        sc.spawn("reporter", reporter)
+        if case.get("reporter", True):
+            sc.spawn("reporter", reporter)
 
         def fin():
             flush_history(app)
@@ -271,15 +284,16 @@ def run_conc(case, V, hooks, distinct):
             got = Counter(l[1] for l in launches(app, cfg))
             totals["runs"] += 1
             out = []
-            for tok in ("ev-0", "ev-late"):
+            for tok in ("ev-0", "ev-late") if case.get("reporter", True) else ("ev-0",):
                 if got.get(tok, 0) != 1:
                     out.append((f"occurrence-{'not-launched' if got.get(tok, 0) == 0 else 'launched-more-than-once'}:event:{logic}:concurrent-loops", f"{backend}: occurrence {tok} got {got.get(tok, 0)} launches with two concurrent trigger loops", {"launch_tokens": dict(got)}))
             return out or None
         return fin
 
     shims = SH.Shims() if backend == "mem" else SH.Shims(threading_modules=["pynenc.state_backend.base_state_backend"], time_modules=["pynenc.util.sqlite_utils"])
-    lines = (["pynenc.trigger.mem_trigger:MemTrigger.claim_trigger_run", "pynenc.trigger.mem_trigger:MemTrigger.record_valid_conditions", "pynenc.trigger.mem_trigger:MemTrigger.get_valid_conditions",
-              "pynenc.trigger.mem_trigger:MemTrigger.clear_valid_conditions", "pynenc.trigger.base_trigger:BaseTrigger.trigger_loop_iteration"]) if backend == "mem" else None
+    # every method of the in-memory store is preemptible line by line (also helpers a refactoring may add), plus the loop itself
+    # (the loop body between two store calls only touches thread-local data: a preemption there is equivalent to one at the next store call)
+    lines = ["pynenc.trigger.mem_trigger:MemTrigger.*"] if backend == "mem" else None
     try:
         res = S.explore(scenario, strategy=case["strategy"], max_preemptions=case.get("p", 1), n=case.get("count", 50), seed=case["seed"],
                         sql=(backend == "sqlite"), lines=lines, shims=shims, max_steps=8000, time_budget=case.get("budget"))
@@ -298,7 +312,9 @@ def run_conc(case, V, hooks, distinct):
         if r.get("deadlock"):
             V.append({"sig": f"deadlock:{backend}", "what": "every live actor is blocked", "witness": base})
         if r.get("error"):
-            V.append({"sig": f"harness-error:{backend}", "what": r["error"][:400], "witness": base})
+            # an exception that escapes a trigger loop iteration / an event report under some interleaving (the occurrence it was serving is lost or served late)
+            etype = r["error"].split(":")[1].strip().split()[0] if ":" in r["error"] else "error"
+            V.append({"sig": f"trigger-loop-raised:{etype}:{backend}", "what": r["error"][:400], "witness": base})
         for sig, what, wit in (r.get("out") or []):
             V.append({"sig": f"{sig}:{backend}", "what": what, "witness": {**wit, **base}})
     return res.get("inconclusive")
